@@ -14,7 +14,7 @@
     [n].  [mk_ymd y m dd] = [mkdate y (ordinal_of_md (is_leap y) m dd)].  Every theorem is stated
     for ALL arguments of the Rust types; each says [= Val ...], so no operation traps. *)
 From Coq Require Import ZArith List Bool.
-From V Require Import Base.Int Base.IO Base.Table Gen.DateTables Model.Date Model.C01 Spec.Gregorian Proofs.C01.
+From V Require Import Base.Int Base.IO Base.Table Gen.DateTables Model.Date Model.C01 Judge.C01 Spec.Gregorian Proofs.C01 Proofs.C01Holds.
 Import ListNotations.
 Open Scope Z_scope.
 
@@ -166,6 +166,21 @@ Theorem C01_succ_none_iff_max : forall y o d, repr y o d ->
   (succ_opt d = Val None <-> d = D_MAX) /\ (pred_opt d = Val None <-> d = D_MIN).
 Proof. exact succ_pred_none_iff. Qed.
 Print Assumptions C01_succ_none_iff_max.
+
+(** ** The property as the independent judge states it (Judge/C01.v, written from the calendar
+    rules only) holds of the model on EVERY case line: whenever the judge has an opinion (the case is
+    in the property's domain: arguments of the Rust types, date arguments valid), it accepts the
+    model's output.  This covers all ten ops, including the checksummed ranges of the exhaustive tier. *)
+Theorem C01_holds : forall op args,
+  Judge.C01.judge op args (Model.C01.run op args) <> JSkip ->
+  Judge.C01.judge op args (Model.C01.run op args) = JOk.
+Proof. exact C01_holds. Qed.
+Print Assumptions C01_holds.
+
+Theorem C01_range_checksum : forall lo hi, i32_min < lo -> lo <= hi -> hi < i32_max ->
+  Model.C01.d_range lo hi = Val (Judge.C01.exp_range lo hi).
+Proof. exact d_range_spec. Qed.
+Print Assumptions C01_range_checksum.
 
 (** ** The hypotheses are inhabited: 2024-02-29 *)
 Example C01_example : repr 2024 60 (mkdate 2024 60) /\
